@@ -32,7 +32,7 @@ meta = {
   'origin': 'written by a fresh sub-agent that saw only the text of the property and a scratch worktree',
   'description': md[:1500],
   'verified': 'tools/seedverify.sh: in a scratch worktree of /repo HEAD the demonstration passes on the clean tree, the patch applies, go build ./... succeeds, the demonstration fails with the patch, and the full suite (go test -mod=mod -vet=off -count=1 ./...) passes with the patch',
-  'checks_run': 'tools/seedrun.sh: git -C /repo apply patch.diff; ./check.sh <id> quick for the ids in checks.log; git -C /repo checkout -- .',
+  'checks_run': 'tools/seedrun.sh: patch applied to a clean tree of /repo HEAD (private worktree; SEED_IN_REPO=1: /repo itself); ./check.sh <id> quick for the ids in checks.log from a snapshot of the committed /verif; tree restored',
   'caught_by': caught, 'reports': keys,
 }
 json.dump(meta, open(dst + '/meta.json', 'w'), indent=1)
